@@ -161,6 +161,8 @@ pub enum Edge {
     DrainAdapt { api: Api, a: u8, b: u8, op: u8 },
     SpliceAdapt { api: Api, a: u8, b: u8, op: u8, rn: u8 },
     IterAdapt { api: Api, kind: IterKind, op: u8 },
+    /// three vectors exchanging elements in one step (C03): A.splice(a..b, B.drain(..rn)) with yielded items moved into C, etc.
+    Three { variant: u8, a: u8, b: u8, rn: u8, pat: Pat },
     /// a real history of up to four operations on one vector, no reconstruction in between (codes index `edges::history_alphabet`, 255 = none)
     History { a: u8, b: u8, c: u8, d: u8 },
     /// iterator protocol (C14): kind, sub-range only for drain/splice, pattern, clone point
@@ -192,7 +194,7 @@ impl Edge {
             Edge::Push(..) => "push", Edge::Insert(..) => "insert", Edge::Pop(..) => "pop", Edge::Remove(..) => "remove",
             Edge::SwapRemove(..) => "swap_remove", Edge::Clear(..) => "clear", Edge::Get(..) => "get", Edge::IterAll(..) => "iter",
             Edge::Drain { .. } => "drain", Edge::Splice { .. } => "splice", Edge::DrainOverflow(..) => "drain-overflow",
-            Edge::SpliceOverflow(..) => "splice-overflow", Edge::IterProto { .. } => "iter-proto", Edge::History { .. } => "history", Edge::DrainAdapt { .. } => "drain-adaptor", Edge::SpliceAdapt { .. } => "splice-adaptor", Edge::IterAdapt { .. } => "iter-adaptor", Edge::Cap(..) => "capacity",
+            Edge::SpliceOverflow(..) => "splice-overflow", Edge::IterProto { .. } => "iter-proto", Edge::History { .. } => "history", Edge::Three { .. } => "three-vectors", Edge::DrainAdapt { .. } => "drain-adaptor", Edge::SpliceAdapt { .. } => "splice-adaptor", Edge::IterAdapt { .. } => "iter-adaptor", Edge::Cap(..) => "capacity",
             Edge::CloneVec { .. } => "clone", Edge::CloneEmpty { .. } => "clone_empty", Edge::CloneEmptyIn { .. } => "clone_empty_in",
             Edge::ForgetHandle { .. } => "forget-handle", Edge::ForgetRange { .. } => "forget-range",
             Edge::WrongPush(..) => "wrong-push", Edge::WrongInsert(..) => "wrong-insert", Edge::WrongSpliceItem { .. } => "wrong-splice",
